@@ -23,20 +23,23 @@ def noPanic (t : Trace) : Bool :=
 
 /-! ### C10: counters equal physical holdings -/
 
-def snapCountersOk (sn : Snap) : Bool :=
-  sn.ec == sn.entries.length && sn.ws == (sn.entries.map (·.weight)).sum
+def snapCountersOk (w : Nat → Nat → Nat) (sn : Snap) : Bool :=
+  sn.ec == sn.entries.length && sn.ws == (sn.entries.map (·.weight)).sum &&
+  sn.ws == (sn.entries.map (fun e => w e.key e.val)).sum
 
-/-- Unsync: after every operation. Sync: at every snapshot taken with both queues empty
+/-- `w` is the configured weigher (constantly 1 without one): the counters must agree with
+the weights stored per entry *and* with the weigher applied to the resident key/value.
+Unsync: after every operation. Sync: at every snapshot taken with both queues empty
 right after a maintenance run (`sync`), the published counters equal what the map holds. -/
-def oracleC10 (kind : Kind) (t : Trace) : Bool :=
+def oracleC10 (kind : Kind) (w : Nat → Nat → Nat) (t : Trace) : Bool :=
   match kind with
   | .unsync => t.all fun oo => match oo.2 with
-      | .snap sn => snapCountersOk sn
+      | .snap sn => snapCountersOk w sn
       | _ => true
   | .sync =>
     let rec go : Trace → Bool
       | (.sync, _) :: (.snap, .snap sn) :: rest =>
-        (if sn.rq == 0 && sn.wq == 0 then snapCountersOk sn else true) && go rest
+        (if sn.rq == 0 && sn.wq == 0 then snapCountersOk w sn else true) && go rest
       | _ :: rest => go rest
       | [] => true
     go t
@@ -132,6 +135,110 @@ def oracleC05 (kind : Kind) (ttl : Option Nat) (t : Trace) : Bool :=
   lookupOracle kind (checkC05 ttl) {} t
 def oracleC06 (kind : Kind) (tti : Option Nat) (t : Trace) : Bool :=
   lookupOracle kind (checkC06 tti) {} t
+
+/-! ### C07: invalidation is immediate, permanent and precise -/
+
+/-- Immediate and permanent: a yielded key is not one whose most recent insert has been
+invalidated (same bookkeeping as C01). -/
+def checkC07 (g : Ghost) (kv : Nat × Option Nat) : Bool :=
+  match AL.get? g.ents kv.1 with
+  | some ge => ge.alive
+  | none => false
+
+def residentKeys (sn : Snap) : List (Nat × Nat) := sn.entries.map fun e => (e.key, e.val)
+
+/-- Precise (white-box, on consecutive snapshots around an invalidation call of the
+single-threaded cache, which performs no other maintenance in `invalidate_all` and
+`invalidate_entries_if`): exactly the targeted entries leave the map. -/
+def preciseC07 : Trace → Bool
+  | (.snap, .snap before) :: (.invIf pr, .ok) :: (.snap, .snap after) :: rest =>
+    (residentKeys after == (residentKeys before).filter (fun kv => !pr.eval kv.1 kv.2)) &&
+      preciseC07 ((.snap, .snap after) :: rest)
+  | (.snap, .snap _) :: (.invAll, .ok) :: (.snap, .snap after) :: rest =>
+    (residentKeys after == []) && preciseC07 ((.snap, .snap after) :: rest)
+  | _ :: rest => preciseC07 rest
+  | [] => true
+
+def oracleC07 (kind : Kind) (t : Trace) : Bool :=
+  lookupOracle kind checkC07 {} t &&
+  (match kind with
+   | .unsync => preciseC07 t
+   | .sync => true)
+
+/-! ### C16: iteration yields every live entry exactly once -/
+
+def nodupKeys : List (Nat × Nat) → Bool
+  | [] => true
+  | (k, _) :: rest => !(rest.any (fun kv => kv.1 == k)) && nodupKeys rest
+
+/-- An entry of a snapshot that iteration must yield at clock reading `now`. -/
+def liveInSnap (ttl tti : Option Nat) (sn : Snap) (e : EntryView) : Bool :=
+  !(expiredAt ttl e.lm sn.now) && !(expiredAt tti e.la sn.now) &&
+  (match sn.va, e.lm, e.la with
+   | some v, some lm, some la => !(decide (lm < v)) && !(decide (la < v))
+   | _, _, _ => true)
+
+/-- White-box: an `iter` observation immediately followed by a snapshot (neither changes the
+state) yields exactly the unexpired residents of that snapshot, each once. -/
+def exactC16 (ttl tti : Option Nat) : Trace → Bool
+  | (.iter, .iter l) :: (.snap, .snap sn) :: rest =>
+    nodupKeys l &&
+    (l == ((sn.entries.filter (liveInSnap ttl tti sn)).map fun e => (e.key, e.val))) &&
+    exactC16 ttl tti rest
+  | (.iter, .iter l) :: rest => nodupKeys l && exactC16 ttl tti rest
+  | _ :: rest => exactC16 ttl tti rest
+  | [] => true
+
+def oracleC16 (kind : Kind) (ttl tti : Option Nat) (t : Trace) : Bool :=
+  lookupOracle kind checkC01 {} t && exactC16 ttl tti t
+
+/-! ### C04: capacity bound -/
+
+def snapWeight (sn : Snap) : Nat := (sn.entries.map (·.weight)).sum
+
+/-- Single-threaded cache, white-box on consecutive snapshots `before, op, after`:
+if the residents weighed at most `cap` before and the operation is not an in-place update
+that makes an entry heavier, they weigh at most `cap` after; a fresh key heavier than `cap`
+is never resident afterwards. -/
+def boundC04 (cap : Nat) : Trace → Bool
+  | (.snap, .snap before) :: (op, ob) :: (.snap, .snap after) :: rest =>
+    (match op with
+     | .ins k _ =>
+       let wasThere := before.entries.any (fun e => e.key == k)
+       let grew := match before.entries.find? (fun e => e.key == k), after.entries.find? (fun e => e.key == k) with
+         | some b, some a => decide (b.weight < a.weight)
+         | _, _ => false
+       (grew || decide (snapWeight before > cap) || decide (snapWeight after ≤ cap)) &&
+       (wasThere || (match after.entries.find? (fun e => e.key == k) with
+                     | some a => decide (a.weight ≤ cap)
+                     | none => true))
+     | _ => decide (snapWeight before > cap) || decide (snapWeight after ≤ cap)) &&
+    (match ob with
+     | .panic _ => true
+     | _ => boundC04 cap ((.snap, .snap after) :: rest))
+  | _ :: rest => boundC04 cap rest
+  | [] => true
+
+/-- Concurrent cache: at every snapshot taken right after `sync` with both queues empty the
+residents weigh at most `cap` unless the excess is being worked off (the previous snapshot
+already exceeded it or entries are dirty); between maintenance runs the map holds at most
+`entry_count + |write queue| + 1` entries. -/
+def boundC04Sync (cap : Nat) : Trace → Bool
+  | (.sync, .ok) :: (.snap, .snap sn) :: rest =>
+    decide (sn.entries.length ≤ sn.ec + sn.wq + 1) &&
+    (!(sn.rq == 0 && sn.wq == 0) || decide (sn.entries.length > 400) ||
+      decide (snapWeight sn ≤ cap)) &&
+    boundC04Sync cap rest
+  | (.snap, .snap sn) :: rest =>
+    decide (sn.entries.length ≤ sn.ec + sn.wq + 1) && boundC04Sync cap rest
+  | _ :: rest => boundC04Sync cap rest
+  | [] => true
+
+def oracleC04 (kind : Kind) (cap : Option Nat) (t : Trace) : Bool :=
+  match cap, kind with
+  | none, _ => true
+  | some c, .unsync => boundC04 c t
+  | some c, .sync => boundC04Sync c t
 
 end Spec
 end MiniMoka
